@@ -1258,6 +1258,15 @@ class MessageBuffer(object):
                     else:
                         yield event
 
+            if string:
+                # none of the events of this part emitted the translated
+                # string, which is the case if they are all expressions
+                for part in yield_parts(string):
+                    if substream is not None:
+                        substream.append(part)
+                    else:
+                        yield part
+
 
 def parse_msg(string, regex=re.compile(r'(?:\[(\d+)\:)|(?<!\\)\]')):
     """Parse a translated message using Genshi mixed content message
